@@ -512,3 +512,121 @@ func TestC06KnownK1(t *testing.T) {
 		t.Fatalf("after the loss of the first packet of a unit an item that is not in the loss-free output is delivered: %s", obs.Trunc(s, 400))
 	}
 }
+
+// TestC06Abstract enumerates short packet sequences over an abstract alphabet and checks the metamorphic relations of
+// the property on each: transport_error_indicator == deletion, adaptation-only insertion == no change, duplicate
+// insertion == no change.
+func TestC06Abstract(t *testing.T) {
+	maxLen := obs.Scale(3, 4)
+	rec := obs.NewRecorder("C06", "abstract_sequences", fmt.Sprintf("bounded-exhaustive: every sequence of 1..%d packets over the alphabet {PID a, PID b} x {continuity counter repeated, +1, +3 (gap)} x {payload_unit_start 0/1} x {payload, adaptation-field-only} (24 symbols; PUSI packets start a PES, others continue it; every payload is unique), followed by a closing PES start on both PIDs; relations checked at every position: marking a packet with transport_error_indicator == deleting it; inserting an adaptation-only packet == no change; inserting an exact duplicate of a payload packet right after it == no change; and no run may panic or report an error; distinct by construction", maxLen))
+	defer rec.Flush()
+	shard, nshards := obs.Shard()
+	type sym struct {
+		pid    int
+		delta  int // 0 repeat, 1 next, 3 gap
+		pusi   bool
+		afonly bool
+	}
+	var alpha []sym
+	for pid := 0; pid < 2; pid++ {
+		for _, d := range []int{0, 1, 3} {
+			for _, pusi := range []bool{false, true} {
+				for _, afo := range []bool{false, true} {
+					alpha = append(alpha, sym{pid, d, pusi, afo})
+				}
+			}
+		}
+	}
+	pids := []uint16{0x100, 0x101}
+	build := func(seq []sym) [][]byte {
+		cc := []uint8{5, 9}
+		var raw [][]byte
+		serial := byte(0)
+		emit := func(s sym) {
+			serial++
+			pid := pids[s.pid]
+			if s.afonly {
+				af := &ref.AF{Stuffing: 182}
+				raw = append(raw, (&ref.TSPacket{PID: pid, HasAF: true, CC: cc[s.pid], AF: af}).MustEncode())
+				return
+			}
+			cc[s.pid] = (cc[s.pid] + uint8(s.delta)) & 0xf
+			var payload []byte
+			if s.pusi {
+				pts := uint64(serial)
+				payload = (&ref.PES{StreamID: 0xe0, Length: 0, Opt: &ref.PESOpt{PTS: &pts}, Payload: bytes.Repeat([]byte{serial}, 20)}).Encode()
+			} else {
+				payload = bytes.Repeat([]byte{0x80 | serial}, 30)
+			}
+			af := &ref.AF{Stuffing: 184 - len(payload) - 2}
+			raw = append(raw, (&ref.TSPacket{PID: pid, PUSI: s.pusi, HasAF: true, HasPayload: true, CC: cc[s.pid], AF: af, Payload: payload}).MustEncode())
+		}
+		for _, s := range seq {
+			emit(s)
+		}
+		// closing unit starts so that pending units are flushed by a PUSI and not only by the end of the stream
+		emit(sym{0, 1, true, false})
+		emit(sym{1, 1, true, false})
+		return raw
+	}
+	run := func(raw [][]byte) string {
+		out, _, nerr, ended := perPIDCanon(raw)
+		if nerr != 0 || !ended {
+			return fmt.Sprintf("ERR(%d,%v)", nerr, ended)
+		}
+		return obs.Canon(out)
+	}
+	total := int64(0)
+	idx := 0
+	var walk func(seq []sym)
+	check := func(seq []sym) {
+		raw := build(seq)
+		base := run(raw)
+		if len(base) > 3 && base[:3] == "ERR" {
+			t.Fatalf("sequence %+v: errors on PES PIDs: %s", seq, base)
+		}
+		for i := range seq {
+			// TEI == deletion
+			del := append(append([][]byte{}, raw[:i]...), raw[i+1:]...)
+			tei := append([][]byte{}, raw...)
+			m := append([]byte{}, raw[i]...)
+			m[1] |= 0x80
+			tei[i] = m
+			if a, b := run(del), run(tei); a != b {
+				t.Fatalf("sequence %+v: marking packet %d with transport_error_indicator differs from deleting it", seq, i)
+			}
+			// adaptation-only insertion == no change
+			afo := (&ref.TSPacket{PID: pids[seq[i].pid], HasAF: true, CC: raw[i][3] & 0xf, AF: &ref.AF{Stuffing: 182}}).MustEncode()
+			ins := append(append(append([][]byte{}, raw[:i+1]...), afo), raw[i+1:]...)
+			if run(ins) != base {
+				t.Fatalf("sequence %+v: inserting an adaptation-field-only packet after packet %d changes the output", seq, i)
+			}
+			// duplicate insertion == no change
+			if !seq[i].afonly {
+				dup := append(append(append([][]byte{}, raw[:i+1]...), raw[i]), raw[i+1:]...)
+				if run(dup) != base {
+					t.Fatalf("sequence %+v: duplicating packet %d changes the output", seq, i)
+				}
+			}
+		}
+		total++
+	}
+	walk = func(seq []sym) {
+		if len(seq) > 0 {
+			idx++
+			if idx%nshards == shard {
+				check(seq)
+			}
+		}
+		if len(seq) == maxLen {
+			return
+		}
+		for _, s := range alpha {
+			walk(append(seq[:len(seq):len(seq)], s))
+		}
+	}
+	walk(nil)
+	rec.Enumerated(total)
+	rec.SetExhaustive(true)
+	rec.Sample(map[string]interface{}{"alphabet": len(alpha), "max_length": maxLen, "sequences_in_this_run": total})
+}
